@@ -284,7 +284,86 @@ func (g *genCtx) genParams(t *rapid.T, cur *App, max int) []Param {
 	return ps
 }
 
-func GenIntent(t *rapid.T) *Intent {
+// IntentOpts switches optional generator features on (they draw *after* everything else, so the
+// default generator's draw sequence is unchanged).
+type IntentOpts struct {
+	Mixins bool // single-level mixins of ~abstract apps
+	Subs   bool // subscriptions 'Src -> Ev' to events of applications declared earlier
+}
+
+func GenIntent(t *rapid.T) *Intent { return GenIntentOpt(t, IntentOpts{}) }
+
+func GenIntentOpt(t *rapid.T, opts IntentOpts) *Intent {
+	in := genIntentBase(t)
+	g := &genCtx{apps: in.Apps}
+	if opts.Mixins && len(in.Apps) >= 2 {
+		// the mixed-in application has no mixins of its own (chains depend on post-processing
+		// order, which C07 owns) and carries ~abstract as the docs require
+		for i, a := range in.Apps {
+			if rapid.IntRange(0, 2).Draw(t, "hasmixin") != 0 {
+				continue
+			}
+			j := rapid.IntRange(0, len(in.Apps)-1).Draw(t, "mixinsrc")
+			src := in.Apps[j]
+			if j == i || len(src.Mixins) > 0 || isMixedIn(in, a) {
+				continue
+			}
+			hasAbstract := false
+			for _, tg := range src.Meta.Tags {
+				if tg == "abstract" {
+					hasAbstract = true
+				}
+			}
+			if !hasAbstract {
+				src.Meta.Tags = append(src.Meta.Tags, "abstract")
+			}
+			a.Mixins = append(a.Mixins, src.Name)
+		}
+	}
+	if opts.Subs {
+		for i := 1; i < len(in.Apps); i++ {
+			a := in.Apps[i]
+			ns := rapid.IntRange(0, 2).Draw(t, "nsubs")
+			used := map[string]bool{}
+			for k := 0; k < ns; k++ {
+				pub := in.Apps[rapid.IntRange(0, i-1).Draw(t, "pubapp")]
+				ev := pick(t, eventPool, "subev")
+				key := appKey(pub.Name) + "->" + ev
+				// the publisher must not declare a non-event endpoint of that name
+				clash := false
+				for _, ep := range pub.Eps {
+					if ep.Name == ev && ep.Kind != "event" {
+						clash = true
+					}
+				}
+				if used[key] || clash {
+					continue
+				}
+				used[key] = true
+				ep := &Endpoint{Kind: "sub", Source: pub.Name, Event: ev}
+				ep.Meta = genMeta(t, false)
+				if rapid.Bool().Draw(t, "substmts") {
+					ep.Stmts = g.genStmts(t, a, 1, 3)
+				}
+				a.Eps = append(a.Eps, ep)
+			}
+		}
+	}
+	return in
+}
+
+func isMixedIn(in *Intent, a *App) bool {
+	for _, b := range in.Apps {
+		for _, mx := range b.Mixins {
+			if appKey(mx) == appKey(a.Name) {
+				return true
+			}
+		}
+	}
+	return false
+}
+
+func genIntentBase(t *rapid.T) *Intent {
 	g := &genCtx{types: map[string][]string{}}
 	na := rapid.IntRange(1, 4).Draw(t, "napps")
 	usedApp := map[string]bool{}
